@@ -2096,6 +2096,9 @@ def disk_io_counters(perdisk=False, nowrap=True):
     kwargs = dict(perdisk=perdisk) if LINUX else {}
     rawdict = _psplatform.disk_io_counters(**kwargs)
     if not rawdict:
+        if nowrap:
+            # let the nowrap cache know that all disks went away
+            _wrap_numbers(rawdict, 'psutil.disk_io_counters')
         return {} if perdisk else None
     if nowrap:
         rawdict = _wrap_numbers(rawdict, 'psutil.disk_io_counters')
@@ -2147,6 +2150,9 @@ def net_io_counters(pernic=False, nowrap=True):
     """
     rawdict = _psplatform.net_io_counters()
     if not rawdict:
+        if nowrap:
+            # let the nowrap cache know that all NICs went away
+            _wrap_numbers(rawdict, 'psutil.net_io_counters')
         return {} if pernic else None
     if nowrap:
         rawdict = _wrap_numbers(rawdict, 'psutil.net_io_counters')
